@@ -1066,6 +1066,7 @@ evbuffer_add_buffer_reference(struct evbuffer *outbuf, struct evbuffer *inbuf)
 		/* There might be an empty chain at the start of outbuf; free
 		 * it. */
 		evbuffer_free_all_chains(outbuf->first);
+		ZERO_CHAIN(outbuf);
 	}
 	APPEND_CHAIN_MULTICAST(outbuf, inbuf);
 
